@@ -23,7 +23,7 @@
 From Coq Require Import QArith Qcanon List String Bool.
 Import ListNotations.
 From S2 Require Import Base.Num Base.Arr Model.Expr Model.Struct Model.Rates Model.Solvers Spec.RatesSpec
-     Proofs.NumQc Proofs.BuildProofs Proofs.CopiesProofs Proofs.AggregateProofs Proofs.InvarianceProofs Proofs.Assembly Proofs.SameKeys Proofs.AgeAssembly Proofs.TimeShift Proofs.Scaling Proofs.AggregateRates Proofs.AggregateModel Proofs.AggregateTotals Proofs.AggregateAll Proofs.RatesBridge Proofs.AggregateFinal Proofs.AggregateTraj Proofs.AgeZero Proofs.AggregateClosed Proofs.FoiProofs Proofs.FoiAggregate Proofs.FoiBridge Proofs.FoiModel Proofs.AggregateInf Proofs.RunExt Model.Program Props.Examples.
+     Proofs.NumQc Proofs.BuildProofs Proofs.CopiesProofs Proofs.AggregateProofs Proofs.InvarianceProofs Proofs.Assembly Proofs.SameKeys Proofs.AgeAssembly Proofs.TimeShift Proofs.Scaling Proofs.AggregateRates Proofs.AggregateModel Proofs.AggregateTotals Proofs.AggregateAll Proofs.RatesBridge Proofs.AggregateFinal Proofs.AggregateTraj Proofs.AgeZero Proofs.AggregateClosed Proofs.FoiProofs Proofs.FoiAggregate Proofs.FoiBridge Proofs.FoiModel Proofs.AggregateInf Proofs.RatesBridgeInf Proofs.AggregateFinalInf Proofs.RunExt Model.Program Props.Examples.
 
 (* the copies of an unadjusted stratification carry the parent's weight, or the parent's weight
    divided by the number of strata for entry flows, destination-only stratified transitions
@@ -250,6 +250,33 @@ Theorem C03_all_flows_models_partial :
 Proof. intros O T. exact (all_flows_model_aggregates O T). Qed.
 Print Assumptions C03_all_flows_models_partial.
 
+(* ... and in terms of the functions the runner executes, infection flows included: within the domain of C05_multiplier
+   for both models (foi_domain: every mixing category holds the same number k >= 1 of each strain's infectious
+   compartments - what numpy's reshape needs - and the category of every infection flow's source indexes a row of the
+   mixing matrix), at every non-negative state x' the entries of get_comp_rates of the stratified model summed over the
+   copies of the i-th compartment are entry i of get_comp_rates of the unstratified model at the aggregated state.
+   (For both models get_comp_rates is "inflow minus outflow of the documented laws": Proofs/RatesBridgeInf.v
+   comp_rates_are_net_rates_all, from C01's flow_rate_nth and C05's infectious_multiplier_spec.) *)
+Theorem C03_comp_rates_aggregate_all_partial :
+  forall (O : NumOps) (T : NumTheory O) t0 t1 h comps inf ops (m : model) (s0 : strat) (m' : model) (b b' : backend),
+    build_ok t0 t1 h comps inf ops = Some m -> NoDup (m_comps m) ->
+    stratify_with m s0 = Ok m' ->
+    prepare_structural m = Ok b -> prepare_structural m' = Ok b' ->
+    NoDup (s_strata (normalise_strat s0)) -> s_strata (normalise_strat s0) <> [] ->
+    is_strain (s_kind (normalise_strat s0)) = false -> s_fadj (normalise_strat s0) = [] ->
+    s_mix (normalise_strat s0) = None -> s_iadj (normalise_strat s0) = [] ->
+    (forall f, In f (m_flows m) -> all_flow f) ->
+    forallb state_free (mix_exprs m) = true ->
+    forall (p : env O) (t : F O) (x' : list (F O)), List.length x' = List.length (m_comps m') ->
+    Forall (fun v => fle O T (f0 O) v) x' ->
+    foi_domain O m p t (aggx O (normalise_strat s0) (m_comps m) x') -> foi_domain O m' p t x' ->
+    forall i dflt, (i < List.length (m_comps m))%nat ->
+      fsum O (map (fun c' => nth (comp_index (m_comps m') c') (get_comp_rates O m' b' p t x') (f0 O))
+                  (group (normalise_strat s0) (nth i (m_comps m) dflt)))
+      = nth i (get_comp_rates O m b p t (aggx O (normalise_strat s0) (m_comps m) x')) (f0 O).
+Proof. intros O T. exact (stratified_comp_rates_aggregate_all O T). Qed.
+Print Assumptions C03_comp_rates_aggregate_all_partial.
+
 (* non-vacuity: S, I, R with I split in two copies (positions 1 and 2), the second half as infectious in both layouts *)
 Example C03_foi_nonvacuous :
   let groups := [[0]; [1; 2]; [3]]%nat in
@@ -354,4 +381,19 @@ Proof.
   vm_compute. split; [reflexivity|]. split; [reflexivity|]. split; [reflexivity|].
   split; [repeat constructor; cbn; intuition discriminate|].
   split; [reflexivity|]. split; [eexists; split; reflexivity | reflexivity].
+Qed.
+
+(* non-vacuity of C03_comp_rates_aggregate_all_partial: the example above and its stratification by location are in the
+   domain of C05_multiplier at a non-negative state of the stratified model and at its aggregate *)
+Definition inf_m0 : model :=
+  match Model.Program.build_ok 0 2 (1#2) ["S"; "I"; "R"]%string ["I"]%string inf_ops with Some m => m | None => empty_model end.
+Definition inf_m1 : model := match stratify_with inf_m0 frac_strat with Ok m => m | Err _ => empty_model end.
+Definition inf_x1 : list Qc := map Q2Qc [100; 200; 100; 50; 150; 100; 20; 30; 10; 5; 15; 20; 7; 3]%Q.
+Example C03_foi_domain_nonvacuous :
+  foi_domain QcOps inf_m1 ex_env (Q2Qc 0) inf_x1
+  /\ foi_domain QcOps inf_m0 ex_env (Q2Qc 0) (aggx QcOps (normalise_strat frac_strat) (m_comps inf_m0) inf_x1)
+  /\ forallb (fun v => Qle_bool 0 (this v)) inf_x1 = true /\ stratify_with inf_m0 frac_strat = Ok inf_m1.
+Proof.
+  split; [apply foi_domain_b_sound; vm_compute; reflexivity|].
+  split; [apply foi_domain_b_sound; vm_compute; reflexivity|]. split; vm_compute; reflexivity.
 Qed.
